@@ -152,12 +152,20 @@ theorem iBatteryLevel14_eq : GenBodies.iBatteryLevel14 = hBattery := by
         simp [GenBodies.iBatteryLevel14, hBattery, h, hp, hcl, convertExn, hc]
     | ok level =>
       by_cases hr : Gen.minBattery ≤ level ∧ level ≤ Gen.maxBattery
-      · have h1 : (0 : Int) ≤ level := hr.1
+      · -- the range test may be spelled `not lo <= x <= hi` or `x < lo or x > hi`: give simp every polarity
+        have h1 : (0 : Int) ≤ level := hr.1
         have h2 : level ≤ (100 : Int) := hr.2
-        simp [GenBodies.iBatteryLevel14, hBattery, h, hp, convertExn, hr, h1, h2]
+        have n1 : ¬ level < (0 : Int) := by omega
+        have n2 : ¬ (100 : Int) < level := by omega
+        have n3 : ¬ level > (100 : Int) := by omega
+        have n4 : ¬ (0 : Int) > level := by omega
+        simp [GenBodies.iBatteryLevel14, hBattery, h, hp, convertExn, hr, h1, h2, n1, n2, n3, n4]
       · have h3 : ¬ ((0 : Int) ≤ level ∧ level ≤ (100 : Int)) := hr
         have h4 : level < 0 ∨ 100 < level := by omega
-        simp [GenBodies.iBatteryLevel14, hBattery, h, hp, convertExn, hr, h4]
+        have h5 : level < 0 ∨ level > 100 := by omega
+        have h6 : ¬ (0 : Int) ≤ level ∨ ¬ level ≤ (100 : Int) := by omega
+        simp [GenBodies.iBatteryLevel14, hBattery, h, hp, convertExn, hr, h4, h5]
+        all_goals first | done | (intros; omega) | (simp_all; done)
 
 theorem iHeartbeatResponse22_eq : GenBodies.iHeartbeatResponse22 = hHeartbeat22 := by
   funext m w
@@ -247,9 +255,12 @@ theorem wrapMissingNC_eq : GenBodies.wrapMissingNC = wrapMissingNC := by
     funext w
     cases hi : w.st.ibuf.get? (m.node, 255, 19) <;>
       simp [presentationRequest, Msg.key, hi]
-    generalize gwSend _ false w = r
-    obtain ⟨r, w'⟩ := r
-    cases r <;> rfl
+    -- what remains (if anything, depending on how the branch is spelled) is a case split on the request's write
+    all_goals first
+      | done
+      | (generalize gwSend _ false w = r
+         obtain ⟨r, w'⟩ := r
+         cases r <;> rfl)
 
 theorem presentation20_eq : GenBodies.presentation20 = prePresentation20 := by
   funext m w
@@ -300,9 +311,11 @@ theorem presentation14_eq (env : Env) (v : Ver) : GenBodies.presentation14 env v
   by_cases hc : m.child = 255
   · by_cases h0 : m.node = 0
     · simp [GenBodies.presentation14, hPresentation, hc, h0]
-      generalize runTyped env (Gen.versionHandlerChain v) m _ = r
-      obtain ⟨r, w'⟩ := r
-      cases r <;> rfl
+      all_goals first
+        | done
+        | (generalize runTyped env (Gen.versionHandlerChain v) m _ = r
+           obtain ⟨r, w'⟩ := r
+           cases r <;> rfl)
     · simp [GenBodies.presentation14, hPresentation, hc, h0]
   · cases h : w.st.nodes.get? m.node <;> simp [GenBodies.presentation14, hPresentation, hc, h, add_child_eq]
 
